@@ -5,8 +5,19 @@ CHECK = {
         {"pkg": "handshake", "files": ["handshake/hsgen_test.go", "handshake/c05_test.go"], "run": "^TestC05",
          "quick": {"scale": 1, "shards": 1, "timeout": 300},
          "thorough": {"scale": 20, "shards": 8, "timeout": 900}},
+        # network level: real nodes in a synctest bubble (engine E-netsim)
+        {"pkg": ".", "tags": "e2e_testing", "hide": ["interface_emit_test.go"],
+         "files": ["netsim/ns_core_test.go", "netsim/ns_world_test.go", "netsim/ns_history_test.go", "netsim/c09_test.go"],
+         "run": "^TestC05_Net", "env": {"GOMAXPROCS": "1", "GODEBUG": "asyncpreemptoff=1"},
+         "quick": {"scale": 1, "shards": 1, "timeout": 900},
+         "thorough": {"scale": 6, "shards": 12, "timeout": 2400}},
     ],
-    "rule": "machine level: rapid histories of 4..40 steps over an identity zoo (4 honest identities with v1/v2/v1+v2 "
+    "rule": "network level: generated worlds of 2-4 real nodes (honest, untrusted-CA, expiring, blocklisted, wrong-responder and "
+            "own-address-claimant identities, optional lighthouse/relay) under an active network adversary (reorder, drop, duplicate, "
+            "replay, bit flips, truncation, header substitution, cross-packet splices); after every step every tunnel in every "
+            "node's hostmap must carry a certificate that node's trust configuration accepts at that instant and keys that pair "
+            "only with tunnels held by the certified identity; non-trivial there: a non-accepted identity initiated or answered a "
+            "handshake. machine level: rapid histories of 4..40 steps over an identity zoo (4 honest identities with v1/v2/v1+v2 "
             "certificates, malicious-but-trusted M, untrusted-CA, expired, blocklisted, and three key-mismatch kinds: stolen "
             "certificate without the private key, foreign certificate body with own key, full certificate with embedded key), "
             "both curves and ciphers (occasional cipher mismatch); steps create initiator/responder Machines or deliver any "
@@ -19,6 +30,6 @@ CHECK = {
         "IX sends s in clear in message 1: a responder completing on a replayed/forged first message is not a violation as long as nobody but the named key holder owns a session pairing with its keys",
         "all messages originate from Machines (possibly adversary-held) and byte-level mutations of them",
     ],
-    "engine": "E-model",
+    "engine": "E-model + E-netsim",
     "technique": "rapid state machine with an active adversary; invariant after every step with a key-ownership oracle over CipherState.UnsafeKey / HandshakeState.PeerStatic",
 }
